@@ -379,6 +379,7 @@ def quantifier(e, st, n, forall):
         sub.env[var] = SV(v, 'int')
         lo, hi = I(e.ev(a[1], st)), I(e.ev(a[2], st))
         rng = z3.And(lo <= v, v < hi)
+        e.bound_keep.append(v)
         e.bound_ids[v.get_id()] = e.bound_ids.get(v.get_id(), 0) + 1
         try:
             body = e.truth(e.ev(a[3], sub))
@@ -396,6 +397,7 @@ def quantifier(e, st, n, forall):
         sub = St(dict(st.env), st.heap, st.pc)
         for nm, v in zip(names, vs):
             sub.env[nm] = SV(v, 'int')
+            e.bound_keep.append(v)
             e.bound_ids[v.get_id()] = e.bound_ids.get(v.get_id(), 0) + 1000000     # never released: names are reserved
         cond = e.truth(e.ev(a[1], sub))
         cond = z3.BoolVal(cond) if isinstance(cond, bool) else cond
